@@ -4,7 +4,9 @@ import (
 	"github.com/cbeuw/Cloak/internal/zzverif/vapi"
 )
 
-var c19Rates = []int64{1000000000, 500000000}
+// 10^9 and 5*10^8 B/s have a 1 ns fill interval; 976562, 244140 and 61035 B/s make the library choose fill
+// intervals of 1024, 4096 and 16384 ns (tick arithmetic = division by a power of two)
+var c19Rates = []int64{1000000000, 500000000, 976562, 244140, 61035}
 
 // c19Bound checks, for every pair i<=j of write instants, that the bytes written in [w_i, w_j] do not exceed
 // rate*(w_j-w_i) + one second of burst (+ one fill quantum of rounding). nsPerByte = 1e9/rate.
@@ -29,7 +31,7 @@ func c19Bound(n []int, w []int64, order func(a, b int) bool, capacity int64, nsP
 
 // VerifC19Seq: one sender, k messages of arbitrary sizes at arbitrary non-decreasing instants.
 func VerifC19Seq() {
-	ri := vapi.Pick("rate", len(c19Rates))
+	ri := vapi.Param("ratebase", 0) + vapi.Pick("rate", vapi.Param("rates", 2))
 	rate := c19Rates[ri]
 	nsPerByte := 1000000000 / rate
 	v := MakeValve(rate, rate)
@@ -64,7 +66,7 @@ func VerifC19Seq() {
 
 // VerifC19Backlog: a backlogged sender starting from a full bucket is not held below the rate.
 func VerifC19Backlog() {
-	ri := vapi.Pick("rate", len(c19Rates))
+	ri := vapi.Param("ratebase", 0) + vapi.Pick("rate", vapi.Param("rates", 2))
 	rate := c19Rates[ri]
 	nsPerByte := 1000000000 / rate
 	v := MakeValve(rate, rate)
